@@ -228,7 +228,7 @@ pub fn run(ctx: &Ctx) -> Report {
         "matching is judged on the library's move encoding: 'Kh1' may denote the castling move e1h1".into(),
     ];
     rep.required_classes = vec![
-        "san:file-disambiguator", "san:rank-disambiguator", "san:square-disambiguator", "san:castle", "san:promotion", "san:check", "san:mate", "san:en-passant", "uci:castle", "uci:orthodox-board",
+        "san:file-disambiguator", "san:rank-disambiguator", "san:square-disambiguator", "san:castle", "san:castle-mate", "san:castle-check", "san:promotion", "san:check", "san:mate", "san:en-passant", "uci:castle", "uci:orthodox-board",
         "reader:|S|=0", "reader:|S|=1", "reader:|S|>=2", "reader:castle-form", "reader:junk-accepted",
     ];
     rep.add(positions(ctx, "writers", ctx.tier.scale(30_000, 25), (2, 4, 6), 30, |v, st| {
@@ -242,6 +242,8 @@ pub fn run(ctx: &Ctx) -> Report {
             let mut nt = castle || san.contains('=') || san.ends_with('+') || san.ends_with('#');
             st.class_if(castle, "san:castle");
             st.class_if(castle && ortho, "uci:castle");
+            st.class_if(castle && san.ends_with('#'), "san:castle-mate");
+            st.class_if(castle && san.ends_with('+'), "san:castle-check");
             st.class_if(san.contains('='), "san:promotion");
             st.class_if(san.ends_with('+'), "san:check");
             st.class_if(san.ends_with('#'), "san:mate");
